@@ -306,6 +306,11 @@ class ExprMixin:
         if self.is_intlike(a) and self.is_intlike(b):
             ta, tb = self.int_term(a), self.int_term(b)
             return {ast.Lt: smt.Lt, ast.LtE: smt.Le, ast.Gt: smt.Gt, ast.GtE: smt.Ge}[type(op)](ta, tb)
+        if isinstance(a, SRef):
+            name = {ast.Lt: '__lt__', ast.Gt: '__gt__', ast.LtE: '__le__', ast.GtE: '__ge__'}[type(op)]
+            mm = self.env.model_for(a.cls, name)
+            if mm is not None:
+                return self.truth(self.call(BoundMeth(a, mm), [b], {}))
         if isinstance(a, Obj) or isinstance(b, Obj):
             name = {ast.Lt: '__lt__', ast.Gt: '__gt__', ast.LtE: '__le__', ast.GtE: '__ge__'}[type(op)]
             if isinstance(a, Obj):
@@ -360,6 +365,8 @@ class ExprMixin:
             return smt.Eq(a.t, b.t)
         if isinstance(a, SRef) and isinstance(b, SRef):
             return smt.Eq(a.t, b.t)
+        if isinstance(a, (SSeqV, SSetV)) and type(a) is type(b):
+            return smt.BoolC(a.t.key() == b.t.key())
         if isinstance(a, SOpaque) or isinstance(b, SOpaque):
             other = b if isinstance(a, SOpaque) else a
             if isinstance(other, (tuple, Obj, MList, MDict, MSet, str, int)):
@@ -589,8 +596,12 @@ class ExprMixin:
             self.assign(gen.target, self.value_of_sort(smt.SeqNth(sv.t, i), sv.ety), sub)
         self.pure += 1
         self.qctx.append(([i], rng))
+        saved_collect = self.collect_safe
+        self.collect_safe = [] if self.pure == 1 else saved_collect
+        collected = self.collect_safe
         try:
             conds = [self.truth(self.eval(c, sub)) for c in gen.ifs]
+            n_if = len(collected) if collected is not None else 0
             if kind == 'dict':
                 k = self.eval(node.key, sub)
                 v = self.eval(node.value, sub)
@@ -602,7 +613,15 @@ class ExprMixin:
         finally:
             self.pure -= 1
             self.qctx.pop()
+            self.collect_safe = saved_collect
         flt = smt.And(*conds)
+        if collected and self.pure == 0:
+            # operations of the body that may raise: either they are safe for every (selected)
+            # element, or the comprehension raises
+            for k_, (c_, exc_factory) in enumerate(collected):
+                guard = rng if k_ < n_if else smt.And(rng, flt)
+                if not self.choose(smt.ForAll([i], smt.Implies(guard, c_))):
+                    raise TargetExc(exc_factory())
         if kind == 'list':
             if conds:
                 # filtered: an abstract sequence r with: every element comes from a selected
